@@ -56,6 +56,17 @@ def main():
     ids = args or sorted(x for x in os.listdir(SEEDED) if os.path.isdir(os.path.join(SEEDED, x)))
     with multiprocessing.Pool(jobs) as pool:
         out = pool.map(one, ids, chunksize=1)
+    done = dict(out)
+    for sid in sorted(x for x in os.listdir(SEEDED) if os.path.isdir(os.path.join(SEEDED, x))):      # the summary always covers every seed
+        mp_ = os.path.join(SEEDED, sid, 'meta.json')
+        if sid not in done and os.path.exists(mp_):
+            m_ = json.load(open(mp_))
+            if 'checks_now' not in m_:          # imported and never re-checked: the checks recorded at reception
+                ck_ = m_.get('checks_on_patched_tree', {})
+                m_ = dict(m_, checks_now=ck_, detected_by_now=sorted(p for p, v in ck_.items() if v.get('exit') == 1),
+                          undecided_now=sorted(p for p, v in ck_.items() if v.get('exit') == 2), own_property_now=ck_.get(m_['property'], {}).get('exit') == 1)
+            done[sid] = m_
+    out = sorted(done.items())
     rows = []
     for sid, meta in out:
         if meta is None:
